@@ -299,8 +299,9 @@ func (vc *VC) keyFormat(st *State, prefix string, arg *Term) *Term {
 	vc.declareFun(inv, []*Sort{sortStr}, sortStr)
 	vc.declareFun("keyspace", []*Sort{sortStr}, sortInt)
 	k := App(sortStr, fn, arg)
-	st.assume(Eq(App(sortStr, inv, k), arg))
-	st.assume(Eq(App(sortInt, "keyspace", k), IntLit(int64(id))))
+	// injective, and its range is disjoint from the ranges of the other formats (stated once, for all arguments,
+	// so that the function can be used under quantifiers in specifications)
+	vc.axiom(fmt.Sprintf("(forall ((x Str)) (! (and (= (%s (%s x)) x) (= (keyspace (%s x)) %d)) :pattern ((%s x))))", inv, fn, fn, id, fn))
 	vc.note("fmt.Sprintf(%q, x) is an injective function of x with a range disjoint from the other key formats (prefix freedom checked syntactically)", prefix+"%s")
 	return k
 }
